@@ -27,15 +27,16 @@ Record ids_ok (s : state) : Prop := {
   io_decl : forall n p, p ∈ decl (nd s n) -> has s p
 }.
 
-Fixpoint texp_wf (s : state) (T : nid) (e : texp) : Prop :=
+Fixpoint texp_wf (s : state) (T : nid) (root : bool) (e : texp) : Prop :=
   match e with
   | TOuter t => has s t /\ scope (nd s t) = None /\ (t < T)%nat /\
                 match nkind (nd s t) with KBindLhs _ => False | _ => True end
-  | TMap _ e | TCut _ e => texp_wf s T e
-  | TMap2 _ e1 e2 => texp_wf s T e1 /\ texp_wf s T e2
+  | TMap _ e | TCut _ e => texp_wf s T false e
+  | TMap2 _ e1 e2 => texp_wf s T false e1 /\ texp_wf s T false e2
   | TBind cs e => (fix go (l : list texp) : Prop :=
-                     match l with [] => True | c :: l => texp_wf s T c /\ go l end) cs
-                  /\ texp_wf s T e
+                     match l with [] => True | c :: l => texp_wf s T true c /\ go l end) cs
+                  /\ texp_wf s T false e
+  | TNil => root = true
   | _ => True
   end.
 
@@ -58,7 +59,7 @@ Record bind_wf (s : state) (b : nat) (r : bindrec) : Prop := {
   bw_rhsNodes : forall n, n ∈ b_rhsNodes r -> has s n /\ scope (nd s n) = Some b;
   bw_nodup : NoDup (b_rhsNodes r);
   bw_nil : b_rhs r = None -> b_rhsNodes r = [];
-  bw_cases : forall t d, chain s b t d -> Forall (texp_wf s t) (b_cases r)
+  bw_cases : forall t d, chain s b t d -> Forall (texp_wf s t true) (b_cases r)
 }.
 
 Definition binds_wf (s : state) : Prop := forall b r, binds s !! b = Some r -> bind_wf s b r.
